@@ -63,7 +63,8 @@ Print Assumptions C20_attributes_exact.
    AttributesSubsection / AttributesSubsubsection object it hands out, put through ANY finite
    history of: starting a walk (iter_subsections / iter_subsubsections / iter_attributes, limited
    to a vendor / scope / tag or not), next() on any walk started so far, abandoning a walk
-   (close, drop, break), num_*, the list properties, complete fresh walks, and unrelated reads of
+   (close, drop, break), num_*, the list properties, complete fresh walks, going on with a pickled /
+   deep-copied / copied object, and unrelated reads of
    the same stream in between.  Every answer of the history is the reference answer computed
    from the stateless decoding [expected_section]: the j-th item of any walk is the j-th encoded
    item whatever happened in between; counts and lists are complete whatever was abandoned. *)
@@ -170,7 +171,8 @@ Print Assumptions C20_mnemonic_array_exact.
 (* ======================= EHABI: one EHABIInfo object, any history of calls ======================= *)
 
 (* For EVERY file and EVERY history of num_entry / get_entry(n) in any order and repeated,
-   re-reading entry fields, mnmemonic_array() of any entry handed out so far, decoder objects
+   re-reading entry fields, pickle round trips / deep copies / copies of the info object, a fresh
+   EHABIInfo in between, mnmemonic_array() of any entry handed out so far, decoder objects
    built over an entry's byte-code, decoded again and read again: each answer is the stateless
    one (the `_num_entry` memo and the decoder's `_index` / `mnemonic_array` are transparent). *)
 Theorem C20_ehabi_history_transparent : forall img le sh_offset sh_size h,
